@@ -807,6 +807,9 @@ def ctrl6(ctx) -> List[Ob]:
 
 
 def _root_defs(ctx, fn, cfg, arg: ast.AST, use: ast.AST, depth: int = 0) -> list:
+    # a field of a record (`region.nodes`, `region[1]`) is as fresh as the record
+    while isinstance(arg, (ast.Attribute, ast.Subscript)):
+        arg = arg.value
     if not isinstance(arg, ast.Name) or depth > 4:
         return []
     out = []
